@@ -133,6 +133,7 @@ type conn struct {
 	order   []int            // text: step indices in write order
 	nread   int              // text: values read so far
 	closed  bool
+	stuck   bool // a command that had to be answered at once was not answered within tmax_ms: nothing more is sent
 	readErr string
 }
 
@@ -499,10 +500,21 @@ func (r *runner) run() {
 		} else {
 			cn.order = append(cn.order, si)
 		}
-		dead := cn.closed
+		dead, stuck := cn.closed, cn.stuck
+		if dead || stuck { // not written: forget the bookkeeping made above
+			if cn.kind == "bin" {
+				delete(cn.byRid, hex16(st.Rid))
+			} else {
+				cn.order = cn.order[:len(cn.order)-1]
+			}
+		}
 		cn.mu.Unlock()
 		if dead {
 			r.out.Steps[si].Err = "connection closed before send: " + cn.readErr
+			continue
+		}
+		if stuck {
+			r.out.Steps[si].Err = "connection stuck: an earlier command was never answered"
 			continue
 		}
 		var werr error
@@ -535,6 +547,14 @@ func (r *runner) run() {
 		case "reply":
 			r.waitReply(cn, si, r.plan.TmaxMs)
 			stopped[si] = r.now()
+			r.mu.Lock()
+			got := r.out.Steps[si].Reply != nil
+			r.mu.Unlock()
+			if !got && cn.kind == "text" {
+				cn.mu.Lock()
+				cn.stuck = true
+				cn.mu.Unlock()
+			}
 		case "short":
 			r.waitReply(cn, si, r.plan.ShortMs)
 			stopped[si] = r.now()
